@@ -196,7 +196,8 @@ class Thermal(_Simu):
 
         # end cases ----------------------------------------------------
 
-        return self.Results_Reshape_values(values, nodeValues)
+        # every result of this simulation is a nodal field (sizes alone cannot tell when Nn == Ne)
+        return self.Results_Reshape_values(values, nodeValues, storedOnNodes=True)
 
     def Results_Iter_Summary(
         self,
